@@ -55,11 +55,26 @@ specialise(
     "C08",
     "a.header-split",
     c08_header_split,
-    {"col": list(range(len(TRANSLATABLE))), "n": [1, 2, 3]},
-    timeout=300,
+    {"col": list(range(len(TRANSLATABLE))), "n": [1, 2]},
+    reach_if=lambda fx: fx["n"] == 1,
+    timeout=400,
     kernel=("pyxform.parsing.sheet_headers:process_header", "pyxform.parsing.sheet_headers:to_snake_case"),
     shims=(),
     symbolic="language token of n symbolic characters (U+0021-U+007E minus ':'), delimiter style (boolean), 0-2 spaces before and after the delimiter",
-    bounds="one documented translatable column spelling and token length per instance",
+    bounds="one documented translatable column spelling and token length (1-2; 3 in thorough) per instance",
     weight=20,
+)
+specialise(
+    "C08",
+    "a.header-split",
+    c08_header_split,
+    {"col": list(range(len(TRANSLATABLE))), "n": [3]},
+    reach_if=lambda fx: False,
+    tiers=("thorough",),
+    timeout=1800,
+    kernel=("pyxform.parsing.sheet_headers:process_header", "pyxform.parsing.sheet_headers:to_snake_case"),
+    shims=(),
+    symbolic="language token of 3 symbolic characters, delimiter style, 0-2 spaces before and after the delimiter",
+    bounds="token length 3",
+    weight=600,
 )
